@@ -146,6 +146,17 @@ Theorem C06_direction_map_compass :
 Proof. vm_compute. reflexivity. Qed.
 Print Assumptions C06_direction_map_compass.
 
+(* ---- the tie to what is executed: for every case the harness can print with capacities None / >= 0, the
+   environment built from the case satisfies the hypothesis of all theorems above, run_case's output is the list of
+   observations of the successive states, and each of those states satisfies the invariant *)
+Theorem C06_run_case_covered : forall c, case_ok c = true ->
+  let e := env_of_case c in
+  caps_ok e /\
+  run_case c = map (fun sr => obs e (fst sr) (snd sr)) (trace e init (c_ops c)) /\
+  Forall (fun sr => Inv e (fst sr)) (trace e init (c_ops c)).
+Proof. exact run_case_covered. Qed.
+Print Assumptions C06_run_case_covered.
+
 (* ---- C18, cell-space sites: a call that raises leaves the whole observation unchanged.
    The general statement covers every operation; the named ones are its instances for the sites listed
    in DESIGN.md (cell setter into a full cell, FixedCell setter, move_relative, Grid2DMovingAgent.move). *)
@@ -300,4 +311,10 @@ Example C06_example_remove_all :
   map (content (exec ex_env init (ops ++ [RemoveAll]))) [0; 1; 2; 3] = [[]; [2]; []; []] /\
   map (reg (exec ex_env init (ops ++ [RemoveAll]))) [1; 2; 3; 4] = [false; false; false; false] /\
   empties ex_env (exec ex_env init (ops ++ [RemoveAll])) = [0; 2; 3].
+Proof. vm_compute. repeat split; reflexivity. Qed.
+
+Example C06_example_run_case :
+  case_ok (ex_case (ex_ops ++ [SetCell 1 (Some 1)])) = true /\
+  length (run_case (ex_case (ex_ops ++ [SetCell 1 (Some 1)]))) = 4%nat /\
+  firstn 2 (nth 3 (run_case (ex_case (ex_ops ++ [SetCell 1 (Some 1)]))) []) = [-1; E_FULL].
 Proof. vm_compute. repeat split; reflexivity. Qed.
